@@ -101,6 +101,9 @@ struct vb_fstream { int handle; };
 #ifndef VB_WAIT
 #define VB_WAIT(cv, pred) do { if (!(pred)) vb_would_block(); } while (0)
 #endif
+#ifndef VB_ARRAY_FILL   /* std::array::fill(v) with a non-zero value */
+#define VB_ARRAY_FILL(a, n, v) do { for (size_t vb_i = 0; vb_i < (size_t)(n); vb_i++) (a).e[vb_i] = (v); } while (0)
+#endif
 #ifndef VB_WAIT_FOR   /* timed wait: the predicate's value when the wait ends (false = timed out) */
 #define VB_WAIT_FOR(cv, pred) (pred)
 #endif
